@@ -72,6 +72,10 @@ def run(tier, seed, replay):
             look = jqgen.lookalike_programs()
             for src in (r.sample(look, 300) if quick else look):
                 cases.append({"id": len(cases), "src": src, "inputs": r.sample(uni, 2), "masks": [ALL_OFF, 0] + [1 << b for b in range(NOPT)]})
+            bp = jqgen.bindpath_programs()
+            arrs = [jqgen.V(x) for x in ([1, 2, {"a": "b", "b": 3}], {"a": [1, 2], "b": {"a": 1}}, [[1, 2], [3]], {"a": {"b": 1}}, [0, 1], None)]
+            for src in (r.sample(bp, 250) if quick else bp):
+                cases.append({"id": len(cases), "src": src, "inputs": r.sample(arrs, 2), "masks": [ALL_OFF, 0, 1 << 8] + [r.randrange(1, ALL_OFF)]})
             for c in evalfam.regression_cases():
                 cases.append({"id": len(cases), "src": c["src"], "inputs": c["inputs"], "masks": [ALL_OFF, 0] + [1 << b for b in range(NOPT)]})
             cor = evalfam.corpus_cases(work, vh)
